@@ -17,7 +17,7 @@ RULE = (
     "inputs from four sources: (a) atheris/libFuzzer coverage-guided bytes -> UTF-8 -> query(), instrumenting aw_query, token dictionary, from an empty corpus and "
     "from corpus/c17 (the test-suite's queries); (b) Hypothesis text over the token alphabet ()[]{},:;='\"\\ letters digits whitespace unicode digits; (c) valid programs "
     "from the C11 grammar corrupted by 1..3 edits (delete/duplicate/swap/insert a character, drop or double a bracket or quote, blank an argument, strip a "
-    "separator); (e) deeply nested programs (lists, dicts, calls nested 1..1500 deep, balanced or off by one bracket); (d) typed corruptions with a known expected class (undefined variable, unknown function, too many/few arguments -> interpret error; wrong top-level "
+    "separator); (e) deeply nested programs (lists, dicts, calls nested 1..1500 deep, balanced or off by one bracket) and integer literals of up to 7500 digits; (d) typed corruptions with a known expected class (undefined variable, unknown function, too many/few arguments -> interpret error; wrong top-level "
     "argument type, unknown bucket -> function error; unterminated string, empty right-hand side, assignment to a non-variable -> parse error). Oracle: under a 10 s "
     "alarm the outcome is a value or a QueryException; any other exception whose traceback does not pass through a q2_* built-in body, aw_transform or aw_datastore "
     "escaped from parsing or name/arity/type resolution -> violation (failures below a built-in are ill-typed *contents*, counted as excluded); for (d) the class "
@@ -172,7 +172,7 @@ def strategy(draw, tier="quick"):
         # deeply nested (mostly valid) programs: the parser and interpreter are recursive
         return {
             "kind": "deep",
-            "open": draw(st.sampled_from(["[", "nop(", '{"a":', "concat([],", "[1,"])),
+            "open": draw(st.sampled_from(["[", "nop(", '{"a":', "concat([],", "[1,", "digits", "digits"])),
             "n": draw(st.one_of(st.integers(1, 60), st.integers(60, 1500))),
             "unbalanced": draw(st.sampled_from([0, 0, 0, 1, -1])),
             "via_var": draw(st.booleans()),
@@ -340,6 +340,12 @@ def known_key(case, v):
 
 
 def deep_text(c):
+    if c["open"] == "digits":
+        # very long integer literals (CPython refuses to convert more than 4300 digits)
+        body = "".join("1234567890"[(i * 7 + c["n"]) % 10] for i in range(c["n"] * 5))
+        if c["via_var"]:
+            return f"x=[{body},{{'k':{body}}}];RETURN=limit_events([],{body})"
+        return "RETURN=" + body
     close = {"[": "]", "nop(": ")", '{"a":': "}", "concat([],": ")", "[1,": "]"}[c["open"]]
     inner = {"[": "", "nop(": "", '{"a":': "1", "concat([],": "[]", "[1,": "2"}[c["open"]]
     body = c["open"] * c["n"] + inner + close * max(0, c["n"] + c["unbalanced"])
